@@ -327,6 +327,130 @@ def hurry_cases(seed, n, start=0):
     return out
 
 
+def boxpair_cases(seed, n, start=0):
+    """powersets of axis-aligned slabs and boxes with unbounded sides: per variable an interval with endpoints from
+    {-inf, 0, 1, 2, +inf} (lines, rays, segments, points), 2-3 disjuncts, EVERY order of the disjuncts (one object per
+    permutation), then pairwise_reduce / omega_reduce / collapse on each and geometric comparison between the orders"""
+    import itertools
+    rnd = random.Random(seed)
+    out = []
+    ENDS = [None, 0, 1, 2]
+    for i in range(n):
+        nnc = rnd.random() < 0.25
+        dim = rnd.choice([1, 2, 2, 2, 3])
+        k = rnd.choice([2, 2, 2, 3])
+        def interval():
+            u = rnd.random()
+            if u < 0.25: return (None, None)                                              # a line
+            if u < 0.6: return (rnd.choice([0, 1, 2]), None) if rnd.random() < 0.5 else (None, rnd.choice([0, 1, 2]))   # a ray
+            lo = rnd.choice([0, 1, 2]); hi = rnd.choice([0, 1, 2])
+            return (min(lo, hi), max(lo, hi))
+        boxes = []
+        base = [interval() for _ in range(dim)]
+        boxes.append(base)
+        for _ in range(k - 1):
+            b = list(base)
+            # adjacent / overlapping along one variable (the exact-union shapes), the other variables equal or independent
+            v = rnd.randrange(dim)
+            lo, hi = base[v]
+            ch = rnd.random()
+            if ch < 0.45 and hi is not None: b[v] = (hi, rnd.choice([None, hi + 1, hi + 1]))
+            elif ch < 0.7 and lo is not None: b[v] = (rnd.choice([None, lo - 1, lo - 1]), lo)
+            else: b[v] = interval()
+            for w in range(dim):
+                if w != v and rnd.random() < 0.7: b[w] = interval()
+            boxes.append(b)
+        L = ["case b%d %s" % (start + i, "NNC" if nnc else "C")]
+        perms = list(itertools.permutations(range(k)))
+        for oid, perm in enumerate(perms, 1):
+            L.append("new %d %d empty" % (oid, dim))
+            for j in perm:
+                L.append("op %d add_disjunct %s" % (oid, cons(box_cons(dim, boxes[j]))))
+        op = rnd.choice(["pairwise_reduce", "pairwise_reduce", "pairwise_reduce", "omega_reduce", "collapse 1"])
+        for oid in range(1, len(perms) + 1):
+            L.append("op %d %s" % (oid, op))
+        for oid in range(2, len(perms) + 1):
+            L.append("qry 1 geometrically_equals %d" % oid)
+        L.append("end")
+        out += L
+    return out
+
+
+def boxpair_systematic(start=0):
+    """the `boxpair' shapes exhaustively in dimension 2: a slab v in [a, a+1] whose other variable w ranges over each of the 13
+    intervals with endpoints in {-inf, 0, 1, 2, +inf}, next to the adjacent slab v in [a+1, a+2] (or [a-1, a]) with w a line, in
+    both orders; pairwise_reduce, then the two orders are compared geometrically"""
+    INTS = [(lo, hi) for lo in (None, 0, 1, 2) for hi in (0, 1, 2, None) if lo is None or hi is None or lo <= hi]
+    out = []
+    n = start
+    for v in (0, 1):
+        w = 1 - v
+        for side in (1, -1):
+            for iw in INTS:
+                b1 = [None, None]; b2 = [None, None]
+                b1[v] = (0, 1); b1[w] = (None, None)
+                b2[v] = (1, 2) if side == 1 else (-1, 0); b2[w] = iw
+                L = ["case bs%d C" % n]; n += 1
+                for oid, order in ((1, (b1, b2)), (2, (b2, b1))):
+                    L.append("new %d 2 empty" % oid)
+                    for b in order:
+                        L.append("op %d add_disjunct %s" % (oid, cons(box_cons(2, b))))
+                L += ["op 1 pairwise_reduce", "op 2 pairwise_reduce", "qry 1 geometrically_equals 2", "end"]
+                out += L
+    return out
+
+
+def grid_cases(seed, n, start=0):
+    """Pointset_Powerset<Grid>: a target grid against covers of 2-3 grid disjuncts, some pairs of which have NO finite partition
+    (grids constraining DIFFERENT variables), others finer / coarser on the same variable; every order of the cover's disjuncts
+    (one object per permutation); geometrically_covers / check_containment / geometrically_equals both ways, difference_assign,
+    omega_reduce"""
+    import itertools
+    rnd = random.Random(seed)
+    out = []
+    def gcg(m, b, a): return "%d %d %s" % (m, b, " ".join(map(str, a)))
+    def grid(cgs): return "cgs %d %s" % (len(cgs), " ".join(cgs)) if cgs else "universe"
+    for i in range(n):
+        dim = rnd.choice([2, 2, 2, 3])
+        def one_var_grid(v=None, m=None):
+            v = rnd.randrange(dim) if v is None else v
+            a = [0] * dim; a[v] = rnd.choice([1, 1, 1, 2])
+            return [gcg(m or rnd.choice([1, 2, 2, 3, 4]), rnd.choice([0, 0, 1]), a)]
+        tv = rnd.randrange(dim)
+        target = one_var_grid(tv, rnd.choice([1, 1, 2]))
+        if rnd.random() < 0.25: target += one_var_grid((tv + 1) % dim)
+        k = rnd.choice([2, 2, 3])
+        cover = []
+        for j in range(k):
+            u = rnd.random()
+            if u < 0.45: cover.append(one_var_grid(rnd.choice([x for x in range(dim) if x != tv])))          # another variable: no finite partition
+            elif u < 0.8: cover.append(one_var_grid(tv, rnd.choice([1, 2, 2, 3, 4])))                          # same variable, finer / coarser / shifted
+            elif u < 0.9: cover.append(list(target))
+            else:
+                a = [rnd.choice([0, 1, -1]) for _ in range(dim)]
+                if not any(a): a[tv] = 1
+                cover.append([gcg(rnd.choice([2, 3]), rnd.choice([0, 1]), a)])
+        L = ["case G%d G" % (start + i)]
+        perms = list(itertools.permutations(range(k)))
+        L.append("new 1 %d empty" % dim)
+        L.append("op 1 add_disjunct %s" % grid(target))
+        for oid, perm in enumerate(perms, 2):
+            L.append("new %d %d empty" % (oid, dim))
+            for j in perm: L.append("op %d add_disjunct %s" % (oid, grid(cover[j])))
+        for oid in range(2, len(perms) + 2):
+            L.append("qry %d geometrically_covers 1" % oid)
+            L.append("qry %d check_containment %s" % (oid, grid(target)))
+            if rnd.random() < 0.5: L.append("qry %d geometrically_equals 1" % oid)
+            if rnd.random() < 0.3: L.append("qry 1 geometrically_covers %d" % oid)
+        x = rnd.randrange(2, len(perms) + 2)
+        L.append("copy 99 1")
+        L.append("op 99 difference_assign %d" % x)
+        if rnd.random() < 0.5: L.append("op %d omega_reduce" % x)
+        L.append("end")
+        out += L
+    return out
+
+
 def make_cases(seed, n, start=0, **kw):
     rnd = random.Random(seed)
     out = []
